@@ -3,7 +3,8 @@
 (* (streams.Stream.ExecuteFlow on generated fixed-window quota configurations)  *)
 (* against the property spec FixedWindowP.                                      *)
 (*                                                                             *)
-(* trace.ndjson: line 1 = configuration (constants of FixedWindowP), then       *)
+(* trace.ndjson: line 1 = configuration (FixedWindowCfg derives the constants   *)
+(* of FixedWindowP from it, incl. the maxima of percentage shares), then        *)
 (*   {"ev":"reset","now":t}                         fresh engine, clock at t    *)
 (*   {"ev":"adv","d":d}                             clock advanced by d ticks   *)
 (*   {"ev":"arrive","q":..,"g":..,"cost":c,"out":..} request handled on its own *)
@@ -13,17 +14,7 @@
 (*   {"ev":"storm","q":..,"g":..,"cost":c,"n":n,"admitted":a}  n simultaneous    *)
 (*        identical requests (many goroutines), a of them admitted               *)
 (*   {"ev":"resetin","q":..}                        reset-in query: no effect   *)
-EXTENDS TraceLib, Integers, FiniteSets
-
-Cfg == TraceLog[1]
-SeqSet(s) == {s[i] : i \in 1..Len(s)}
-Quota == SeqSet(Cfg.quotas)
-Group == SeqSet(Cfg.groups)
-Parent == Cfg.parent
-Max == Cfg.Max
-W == Cfg.W
-Grouped == Cfg.grouped
-Gran == 2
+EXTENDS FixedWindowCfg, FiniteSets
 
 VARIABLES now, lo, hi, charged, admitted, last, l, pend, done
 
